@@ -370,7 +370,7 @@ func c15DiffField(want, got []string) string {
 // c15ManyTrips: N trips (N around powers of two) over three feeds in four appearance patterns,
 // three windows; the expectation is computed per trip from the statement's rules.
 var c15TripCounts = []int{9, 65, 257, 1025}
-var c15Patterns = []string{"all assigned in every feed", "every third missing from feed 1", "odd ones never assigned; every fifth missing from feed 2", "assigned, then every second without vehicle, then all missing"}
+var c15Patterns = []string{"all assigned in every feed", "every third missing from feed 1", "odd ones never assigned; every fifth missing from feed 2", "assigned, then every second without vehicle, then all missing", "even ones from feed 0, odd ones first seen in feed 1 - in which every third even one is missing -, even ones missing from feed 2"}
 
 // state of trip i in feed k under pattern p: 0 absent, 1 unassigned, 2 vehicle "v<i>a", 3 vehicle "v<i>b"
 func c15PatternState(p, i, k int) int {
@@ -401,6 +401,17 @@ func c15PatternState(p, i, k int) int {
 			return 3
 		}
 		return 0
+	case 4:
+		// new trips arrive in the very feed in which others go missing
+		switch {
+		case i%2 == 1 && k == 0:
+			return 0
+		case i%2 == 1:
+			return 2
+		case k == 1 && i%6 == 0, k == 2:
+			return 0
+		}
+		return 2
 	}
 	return 0
 }
@@ -522,7 +533,7 @@ func init() {
 	register(&Check{
 		ID:    "C15",
 		Level: "model_checking",
-		Rule: "9 / 65 / 257 / 1025 trips over three feeds in 4 appearance patterns x 3 windows x start times around 1.7e9 s or straddling 1e9 s (UIDs of 9 and 10 digits) against per-trip accounting; three trip identities (T1, T2 share start instant and id suffix -> one UID; T3 other suffix and start) each per feed in {absent, unassigned, vehicle v1, vehicle v2} (T1 also: vehicle v1 with an empty update list) = 80 feed symbols (96 with a vehicle without id for T1, in histories of <= 2, thorough 3), the start date carried in a different *time.Location from feed to feed; ALL histories of <= 3 feeds (thorough <= 4) x 9 windows (incl. bounds with a sub-second part, and the zero time as lower bound), histories of <= 2 (thorough 3) feeds additionally under 4 feed-time schemes (60 s apart, all equal, no timestamps, decreasing); T1 alone in ALL histories of <= 5 (thorough 6) feeds (seen with a vehicle, missing, back without a vehicle, missing again, ...); plus a fourth identity T4 (same trip id and start date as T1, another start time) in {absent, unassigned, v1}: 240 symbols, ALL histories of <= 2 (thorough 3) feeds x 9 windows (incl. bounds with a sub-second part, and the zero time as lower bound); " +
+		Rule: "9 / 65 / 257 / 1025 trips over three feeds in 5 appearance patterns x 3 windows x start times around 1.7e9 s or straddling 1e9 s (UIDs of 9 and 10 digits) against per-trip accounting; three trip identities (T1, T2 share start instant and id suffix -> one UID; T3 other suffix and start) each per feed in {absent, unassigned, vehicle v1, vehicle v2} (T1 also: vehicle v1 with an empty update list) = 80 feed symbols (96 with a vehicle without id for T1, in histories of <= 2, thorough 3), the start date carried in a different *time.Location from feed to feed; ALL histories of <= 3 feeds (thorough <= 4) x 9 windows (incl. bounds with a sub-second part, and the zero time as lower bound), histories of <= 2 (thorough 3) feeds additionally under 4 feed-time schemes (60 s apart, all equal, no timestamps, decreasing); T1 alone in ALL histories of <= 5 (thorough 6) feeds (seen with a vehicle, missing, back without a vehicle, missing again, ...); plus a fourth identity T4 (same trip id and start date as T1, another start time) in {absent, unassigned, v1}: 240 symbols, ALL histories of <= 2 (thorough 3) feeds x 9 windows (incl. bounds with a sub-second part, and the zero time as lower bound); " +
 			"non-trivial = distinct histories of >= 2 feeds; oracle = reference accountant compared field by field (UID, id fields, vehicle, last observed, marked past, update count, stop-level marks), order and uniqueness included",
 		Assumptions: []string{"feeds list their trips in identifier order, as ParseRealtime produces them", "feed times are 60 s apart starting at a fixed instant"},
 		Scenarios: func(tier string) []*Scenario {
